@@ -1,6 +1,7 @@
 import Mp4ff.Model.Cenc
 import Mp4ff.Model.Aes
 import Mp4ff.Driver.Util
+import Mp4ff.Driver.C15
 namespace Mp4ff.Driver.C07
 open Mp4ff Mp4ff.Cenc Mp4ff.Nalu Mp4ff.Driver
 
@@ -29,6 +30,18 @@ def dispatch (op : String) (args : List String) : Option String :=
       let vids := units.filter fun n => c.isVideo (c.typeOf (n.headD 0))
       let tbl := vids.zip hs
       pure (match protectRanges c (some fun n => (tbl.find? (·.1 == n)).map (·.2)) s with | some l => showRanges l | none => "err")
+  | "cbcs.avcranges", [ss, ps, _, _, h] => do
+      -- cbcs sub-sample map of an AVC sample: the range computation (Model/Cenc.lean) fed with the slice header sizes
+      -- of the slice header model (Model/AvcSlice.lean) on the given parameter-set values; the parameter-set NAL units
+      -- themselves (third and fourth argument, used by the implementation side) are not looked at
+      let s ← fromHex h
+      let sm ← C15.parseSpsInfos ss
+      let pm ← C15.parsePpsInfos ps
+      let hdr := fun (n : Bytes) =>
+        match AvcSlice.parseSlice (AvcSlice.fuel n) sm pm n with
+        | .ok _ size => some size
+        | _ => none
+      pure (match protectRanges avc (some hdr) s with | some l => showRanges l | none => "err")
   | "cenc.apr", [a, b] => do pure (showRanges (appendProtectRange [] (← a.toNat?) (← b.toNat?)))
   | "cenc.crypt", [k, iv, rs, h] => do
       let key ← fromHex k
